@@ -133,6 +133,16 @@ class TermBuilder(object):
                 vol = vol or t.volatile
             br = {'Tuple': '(%s)', 'List': '[%s]', 'Set': '{%s}'}[type(e).__name__]
             return Term(br % ', '.join(t.key for t in ts), deps, vol, node=e, shape=br % ', '.join('%s' for t in ts), sub=ts)
+        if isinstance(e, (ast.Compare, ast.BoolOp)) or (isinstance(e, ast.UnaryOp) and isinstance(e.op, ast.Not)):
+            # a test kept as a value (`ok = count > half`): as stable as its operands (pure calls such as len() included)
+            parts = [e.left] + list(e.comparators) if isinstance(e, ast.Compare) else (list(e.values) if isinstance(e, ast.BoolOp) else [e.operand])
+            ts = [self.term(x) for x in parts]
+            deps = set()
+            vol = False
+            for t in ts:
+                deps |= t.deps
+                vol = vol or t.volatile
+            return Term(unparse(e), deps, vol, node=e)
         # anything else: opaque, depends on every name inside
         deps = set()
         vol = False
@@ -438,6 +448,14 @@ class Effects(object):
             self.target_syms(a.target, w)
             for c in _calls(a.iter):
                 self.call_writes(c, w)
+            # an index produced by range() / enumerate() is a number, never None
+            it = a.iter
+            if isinstance(it, ast.Call) and isinstance(it.func, ast.Name) and it.func.id in ('range', 'xrange', 'enumerate'):
+                tg = a.target
+                if it.func.id == 'enumerate':
+                    tg = tg.elts[0] if isinstance(tg, (ast.Tuple, ast.List)) and tg.elts else None
+                if isinstance(tg, ast.Name):
+                    gens.append(('none', tb.term(tg), False))
         elif node.kind == 'with':
             for it in a.items:
                 if it.optional_vars is not None:
@@ -695,6 +713,12 @@ class Explorer(object):
                     extra.append(('eq', xt, nt))
                 if extra:
                     after = frozenset(after | set(extra))
+            if node.kind == 'stmt' and isinstance(node.ast, ast.Assign) and len(node.ast.targets) == 1 and isinstance(node.ast.targets[0], ast.Name) \
+                    and isinstance(node.ast.value, ast.Name):
+                # `a = b` with b known not to be None: a is not None either (kept when b is overwritten later)
+                bt = self.tb.term(node.ast.value)
+                if ('none', bt, False) in fs:
+                    after = frozenset(after | {('none', self.tb.term(node.ast.targets[0]), False)})
             ncnt = cnt
             ncnt_exc = cnt
             if track is not None:
